@@ -4,7 +4,9 @@
 # spec/alg on the TLA-Library path.  A scratch metadir is used and removed.
 V=/verif
 d="$1"; m="$2"; shift 2
-[ $V/spec/java/classes/BigNat.class -nt $V/spec/java/BigNat.java -a $V/spec/java/classes/VerifIO.class -nt $V/spec/java/VerifIO.java ] || (mkdir -p $V/spec/java/classes && javac -cp /opt/veriftools/tla/tla2tools.jar -d $V/spec/java/classes $V/spec/java/*.java) || exit 2
+stale=0
+for j in $V/spec/java/*.java; do c=$V/spec/java/classes/$(basename $j .java).class; [ -f $c -a $c -nt $j ] || stale=1; done
+[ $stale = 0 ] || (mkdir -p $V/spec/java/classes && javac -cp /opt/veriftools/tla/tla2tools.jar -d $V/spec/java/classes $V/spec/java/*.java) || exit 2
 meta=$(mktemp -d /tmp/tlcmeta.XXXXXX)
 cd "$d" || exit 2
 java -XX:+UseParallelGC -Xss1g ${TLC_XMX:--Xmx8g} ${TLC_JVM_OPTS} \
